@@ -625,5 +625,64 @@ func markerMetadata(r *RNG, s string) []string {
 	}
 	labels := []string{"+g1a2b3c4", "+1.a1", "+7.rc1", "+ubuntu.1.dev2", "+rc1", "+alpha", "+1.b2", "+dev", "+c3", "+x", "+X.1", "+beta.x"}
 	perm := r.Perm(len(labels))
-	return []string{s + labels[perm[0]], s + labels[perm[1]], s + labels[perm[2]]}
+	out := []string{s + labels[perm[0]], s + labels[perm[1]], s + labels[perm[2]]}
+	if strings.Contains(s, "-") {
+		// a label shaped like the tail of a generated version (number, timestamp, revision): two
+		// of them on the same text are the same version
+		out = append(out, s+"+m.0.20170102030405-aaaaaaaaaaaa", s+"+m.0.20230908070605-bbbbbbbbbbbb")
+	}
+	return out
+}
+
+// runeClassFamily: texts around one rune outside ASCII that Unicode classes as a decimal digit or
+// a letter (a parser that validates with unicode.IsDigit / IsLetter accepts it; a scanner that
+// works on bytes sees neither a digit nor a letter).  The rune is placed right behind a digit run
+// (or replaces a letter), and the family holds the text, the respelling of the number in front of
+// the rune with one more leading zero, and each of the two followed by the bytes that open a new
+// segment in some ecosystem ("~", ".", "-", "+", "_", a digit, a letter) — so that the pool gets
+// triples whose members share everything up to the rune and differ only in what follows it or in
+// the spelling of the number before it.
+func runeClassFamily(r *RNG, s string) []string {
+	digits := []string{"٣", "３", "৩", "۵"}
+	letters := []string{"é", "Ω", "ж", "ß", "İ", "漢"}
+	runs := digitRuns(s)
+	var base, zero string
+	if len(runs) > 0 && r.Chance(70) {
+		run := runs[len(runs)-1]
+		if r.Chance(40) {
+			run = runs[r.Intn(len(runs))]
+		}
+		u := r.Pick(digits)
+		if r.Chance(30) {
+			u = r.Pick(letters)
+		}
+		base = s[:run[1]] + u
+		zero = s[:run[0]] + "0" + s[run[0]:run[1]] + u
+		if r.Chance(50) {
+			// keep what followed the run
+			return []string{base + s[run[1]:], zero + s[run[1]:], base + "~" + s[run[1]:], base + "." + s[run[1]:], s[:run[1]] + u + u + s[run[1]:]}
+		}
+	} else {
+		// replace one ASCII letter
+		var pos []int
+		for i := 0; i < len(s); i++ {
+			if tokClass(s[i]) == 1 {
+				pos = append(pos, i)
+			}
+		}
+		if len(pos) == 0 {
+			return nil
+		}
+		i := pos[r.Intn(len(pos))]
+		base = s[:i] + r.Pick(letters) + s[i+1:]
+		zero = s[:i] + r.Pick(digits) + s[i+1:]
+	}
+	out := []string{base, zero}
+	for _, suf := range []string{"~", ".", "-", "+", "_", "1", "a", "~1", ".0", "-1"} {
+		out = append(out, base+suf)
+		if r.Chance(40) {
+			out = append(out, zero+suf)
+		}
+	}
+	return out
 }
